@@ -52,7 +52,7 @@ func childPaths(b run.Batch, r *ev.Result) {
 		if res == "200" {
 			r.Count("paths.success_answers", 1)
 		}
-		alive = w.quiesce("path "+name, map[string]interface{}{"path": name, "result": res})
+		alive = w.quiesce("path "+name, map[string]interface{}{"path": name, "result": res, "batch": curBatch})
 	}
 	st := func(c int, _ []byte, err error) string {
 		if err != nil {
